@@ -199,6 +199,43 @@ def run(ctx):
             if rep != want:
                 i = next(i for i in range(len(want)) if i >= len(rep) or rep[i] != want[i])
                 ctx.corr_mismatch("validate_chunk_coords", dict(d, coords=list(boxes[i])), want[i], rep[i:i + 1])
+    # ---- (a') encoder selection: EVERY combination of the finite request space ------------------------------
+    from neuroglancer_scripts import chunk_encoding
+    ereqs, emeta = [], []
+    for dt in ["uint8", "uint16", "uint32", "uint64", "float32", "int8", "int32", "float64", "bool", "-"]:
+        for nc in [-1, 0, 1, 2, 3, 4, "x", "-"]:
+            for enc in ["raw", "compressed_segmentation", "jpeg", "png", "RAW", "-"]:
+                for blk in (0, 1):
+                    info = {"type": "image"}
+                    sc = {"key": "k", "size": [4, 4, 4], "chunk_sizes": [[4, 4, 4]], "resolution": [1, 1, 1]}
+                    if dt != "-":
+                        info["data_type"] = dt
+                    if nc != "-":
+                        info["num_channels"] = 1.5 if nc == "x" else nc
+                    if enc != "-":
+                        sc["encoding"] = enc
+                    if blk:
+                        sc["compressed_segmentation_block_size"] = [8, 8, 8]
+                    try:
+                        e = chunk_encoding.get_encoder(info, sc)
+                        got = {"RawChunkEncoder": "raw", "CompressedSegmentationEncoder": "compressed_segmentation",
+                               "JpegChunkEncoder": "jpeg"}.get(type(e).__name__, type(e).__name__)
+                    except chunk_encoding.InvalidInfoError:
+                        got = "InvalidInfoError"
+                    except Exception as exc:  # noqa
+                        got = "!" + type(exc).__name__
+                        ctx.oracle_fail(f"get_encoder raised {type(exc).__name__} instead of InvalidInfoError",
+                                        {"data_type": dt, "num_channels": nc, "encoding": enc, "block_size": bool(blk)})
+                    d = {"data_type": dt, "num_channels": nc, "encoding": enc, "block_size": bool(blk)}
+                    ctx.case(("get_encoder", dt, nc, enc, blk))
+                    if got in ("raw", "compressed_segmentation", "jpeg") and got != enc:
+                        ctx.oracle_fail("get_encoder returned a codec other than the one the scale names", dict(d, got=got))
+                    ereqs.append(f"get-encoder {dt} {'x' if nc == 'x' else nc} {enc} {blk}")
+                    emeta.append((d, got))
+    if ctx.driver_ok:
+        for rep, (d, got) in zip(core.driver_batch(ereqs), emeta):
+            if rep != got:
+                ctx.corr_mismatch("get-encoder", d, got, rep)
     # ---- (b) write / read histories ---------------------------------------------------------------------
     hreqs, hmeta = [], []
     for _ in range(ctx.budget(40, 700)):
